@@ -16,11 +16,13 @@
 package gomatrixserverlib
 
 import (
+	"encoding/json"
 	"fmt"
 	"strings"
 	"unicode/utf8"
 
 	"github.com/matrix-org/gomatrixserverlib/spec"
+	"github.com/tidwall/gjson"
 )
 
 // Event validation errors
@@ -50,6 +52,47 @@ type eventFields struct {
 	Unsigned       spec.RawJSON   `json:"unsigned,omitempty"`
 	OriginServerTS spec.Timestamp `json:"origin_server_ts"`
 	//Origin         spec.ServerName `json:"origin"`
+}
+
+// eventFieldNames are the top-level keys of an event that this package decodes into
+// struct fields, when parsing an event and when redacting one.
+var eventFieldNames = []string{
+	"event_id", "type", "room_id", "sender", "state_key", "content", "hashes", "signatures", "depth",
+	"prev_events", "prev_state", "auth_events", "origin", "origin_server_ts", "membership", "redacts",
+	"unsigned", "sticky", "msc4354_sticky",
+}
+
+// dropCaseVariantKeys removes the top-level keys that encoding/json would decode into
+// one of the fields above although they are not spelt like it, e.g. "Event_ID" or
+// "unſigned": encoding/json matches object keys to struct fields case-insensitively,
+// but JSON object keys are case sensitive, so these are ordinary unknown keys that must
+// not be taken for, or take the place of, the real ones. Events without such a key,
+// which is all events honest servers send, are returned as they are.
+func dropCaseVariantKeys(eventJSON []byte) []byte {
+	var variants []string
+	gjson.ParseBytes(eventJSON).ForEach(func(key, _ gjson.Result) bool {
+		for _, name := range eventFieldNames {
+			if key.Str != name && strings.EqualFold(key.Str, name) {
+				variants = append(variants, key.Str)
+			}
+		}
+		return true
+	})
+	if len(variants) == 0 {
+		return eventJSON
+	}
+	var object map[string]json.RawMessage
+	if err := json.Unmarshal(eventJSON, &object); err != nil {
+		return eventJSON // not an object: the caller's own decoding reports it
+	}
+	for _, key := range variants {
+		delete(object, key)
+	}
+	filtered, err := json.Marshal(object)
+	if err != nil {
+		return eventJSON
+	}
+	return filtered
 }
 
 var emptyEventReferenceList = []eventReference{}
